@@ -32,18 +32,22 @@ def main():
             al = caught['alarms']
             cell = ' '.join((k if v['concrete'] else k.lower()) for k, v in sorted(al.items())) or '—'
             own = 'yes' if meta['breaks'] in al and al[meta['breaks']]['concrete'] else ('obligation' if meta['breaks'] in al else 'NO')
+        if meta['breaks'] == 'none':
+            own = '—'
         rows.append((name, meta['breaks'], title(meta), own, cell))
     print('| change | written against | what it is | own check finds an input | alarms (CAPITAL = concrete input, lower = broken obligation only) |')
     print('|---|---|---|---|---|')
     for r in rows:
         print('| %s | %s | %s | %s | %s |' % r)
-    n = len(rows)
-    own = sum(1 for r in rows if r[3] == 'yes')
-    obl = sum(1 for r in rows if r[3] == 'obligation')
-    no = sum(1 for r in rows if r[3] == 'NO')
+    br = [r for r in rows if r[1] != 'none']
+    hl = [r for r in rows if r[1] == 'none']
+    own = sum(1 for r in br if r[3] == 'yes')
+    obl = sum(1 for r in br if r[3] == 'obligation')
+    no = sum(1 for r in br if r[3] == 'NO')
     print()
-    print('%d changes; the check of the property the change was written against reports it with a concrete failing input for %d, '
-          'as a broken obligation only for %d, not at all for %d.' % (n, own, obl, no))
+    print('%d breaking changes: the check of the property the change was written against reports it with a concrete failing '
+          'input for %d, as a broken obligation only for %d, not at all for %d. %d harmless refactors: %d of them raise an alarm.'
+          % (len(br), own, obl, no, len(hl), sum(1 for r in hl if r[4] not in ('—', '(not re-run)'))))
 
 
 if __name__ == '__main__':
